@@ -10,9 +10,12 @@
 (*  C01 P: every matched node's kind is in the rule's potential kinds;      *)
 (*         find_all = Visitor = CombinedScan = per-node matching in         *)
 (*         document order; overlap-free visit = outermost matches           *)
-(*  I    : verdict/env = Eval("impl"), potential kinds = PK                 *)
+(*  I    : verdict/env = Eval("impl"), potential kinds = PK; the secondary   *)
+(*         labels of every match = Labels!LabelsOf("I")                     *)
+(*  ext  : the labels name the nodes the relational rules selected          *)
+(*         (LabelsOf("P")) - not a listed property, reported as extension   *)
 (***************************************************************************)
-EXTENDS RuleGen, Json, IOUtils, TLC
+EXTENDS RuleGen, Labels, Json, IOUtils, TLC
 
 Us   == JsonDeserialize(IOEnv.UNIVERSE)
 Recs == ndJsonDeserialize(IOEnv.TRACE)
@@ -27,6 +30,8 @@ EnvOf(r, n) == LET ks == { k \in 1..Len(r.envs) : r.envs[k].n = n } IN
                IF ks = {} THEN [single |-> <<>>, multi |-> <<>>]
                ELSE LET e == r.envs[CHOOSE k \in ks : TRUE] IN [single |-> e.single, multi |-> e.multi]
 EnvEq(a, b) == FnEq(a.single, b.single) /\ FnEq(a.multi, b.multi)
+LabelsRec(r, n) == LET ks == { k \in 1..Len(r.envs) : r.envs[k].n = n } IN
+                   IF ks = {} THEN <<>> ELSE r.envs[CHOOSE k \in ks : TRUE].labels
 
 \* guard of the C04 judgement: every pattern atom alone, on every node, behaves as Match.tla predicts
 OracleAgrees(U, tree) ==
@@ -77,6 +82,11 @@ Drift(r) ==
                                   (n \in ToSet(r.hits)) = e.ok /\ (e.ok => EnvEq(e.env, EnvOf(r, n)))
           THEN {} ELSE {"eval"})
          \cup (IF PK(U, r.rule).any = r.pk.any /\ (~r.pk.any => PK(U, r.rule).set = ToSet(r.pk.set)) THEN {} ELSE {"potential_kinds"})
+         \* secondary labels (judged where the oracle of the pattern atoms agrees, so that Eval("clean") is the code's verdict)
+         \cup (IF ~OracleAgrees(U0, tree) \/ ~(\A n \in ToSet(r.hits) : Eval("clean", U, T, r.rule, n, EmptyEnv).ok) THEN {}
+               ELSE (IF \A n \in ToSet(r.hits) : LabelsOf("I", U, T, r.rule, n, EmptyEnv) = LabelsRec(r, n) THEN {} ELSE {"labels"})
+                    \cup (IF \A n \in ToSet(r.hits) : LabelsOf("P", U, T, r.rule, n, EmptyEnv) = LabelsRec(r, n) THEN {}
+                          ELSE {"ext:secondary-label-is-not-the-node-the-relational-rule-selected"}))
 
 Init == l = 1 /\ pFail = <<>>
 
